@@ -68,6 +68,13 @@ struct hwloc_synthetic_intlv_loop_s {
   unsigned level_depth;
 };
 
+static int
+hwloc_synthetic_compare_indexes(const void *_a, const void *_b)
+{
+  unsigned a = *(const unsigned *)_a, b = *(const unsigned *)_b;
+  return a < b ? -1 : a > b;
+}
+
 static void
 hwloc_synthetic_process_indexes(struct hwloc_synthetic_backend_data_s *data,
 				struct hwloc_synthetic_indexes_s *indexes,
@@ -112,6 +119,23 @@ hwloc_synthetic_process_indexes(struct hwloc_synthetic_backend_data_s *data,
 	attr = next+1;
       } else {
 	attr = next;
+      }
+    }
+    /* explicit indexes must be unique (duplicate NUMA indexes would yield overlapping nodesets) */
+    if (total > 1) {
+      unsigned *sorted = malloc(total * sizeof(*sorted));
+      if (!sorted)
+	goto out_with_array;
+      memcpy(sorted, array, total * sizeof(*sorted));
+      qsort(sorted, total, sizeof(*sorted), hwloc_synthetic_compare_indexes);
+      for(i=1; i<total; i++)
+	if (sorted[i] == sorted[i-1])
+	  break;
+      free(sorted);
+      if (i < total) {
+	if (verbose)
+	  fprintf(stderr, "Invalid duplicate index in synthetic index list '%s'\n", indexes->string);
+	goto out_with_array;
       }
     }
     indexes->array = array;
